@@ -73,6 +73,13 @@ pub struct SkUsed<T> {
     pub n: u8,
 }
 
+/// a lifetime parameter and a defaulted const parameter: every value of N is a type of its own
+#[derive(TypeInfo)]
+pub struct Win<'a, const N: usize = 4> {
+    pub s: &'a str,
+    pub a: [u8; N],
+}
+
 #[derive(TypeInfo)]
 pub enum E {
     A,
@@ -297,6 +304,8 @@ pub fn universe() -> Vec<Member> {
         m!(P<OnlyParam>, "P<OnlyParam>"),
         m!(Sk<NoInfo>, "Sk<NoInfo>"),
         m!(Sk<u8>, "Sk<u8>"),
+        m!(Win<'static, 4>, "Win<'static,4>"),
+        m!(Win<'static, 8>, "Win<'static,8>"),
         m!(SkUsed<u8>, "SkUsed<u8>"),
         m!(SkUsed<u16>, "SkUsed<u16>"),
         m!(E, "E"),
